@@ -132,8 +132,10 @@ def visit (ops : Ops) (bi : List (String × Val)) (tbl : Tbl) : Expr → VRes (O
       else do
         VRes.record i (.list (vs.filterMap id))
         pure (some (.list (vs.filterMap id)))
-  | .comp i targets inner => do
-      -- collect the values unrelated to the targets: best effort, a failure is ignored
+  | .comp i targets first inner => do
+      -- collect the values unrelated to the targets: best effort, a failure is ignored; the first iterable is visited
+      -- in the enclosing scope (the targets are not bound there), the other parts with the targets as placeholders
+      (⟨(visit ops bi tbl first).log, .ok ()⟩ : VRes Unit)     -- `try: visit(first) except Exception: pass`
       harvest ops bi (tbl.shadow targets) inner
       if tbl.hasPlaceholder then pure none
       else do
@@ -353,7 +355,7 @@ def allIds : Expr → List Nat
   | .compare i left rest => i :: (allIds left ++ allIdsCmp rest)
   | .ifexp i c t e => i :: (allIds c ++ allIds t ++ allIds e)
   | .display i es => i :: allIdsList es
-  | .comp i _ inner => i :: allIdsList inner
+  | .comp i _ first inner => i :: (allIds first ++ allIdsList inner)
   | .starred i e => i :: allIds e
   | .coll i _ es => i :: allIdsList es
   | .dict i items => i :: allIdsItems items
@@ -391,7 +393,7 @@ def innerIds : Expr → List Nat
   | .compare _ left rest => innerIds left ++ innerIdsCmp rest
   | .ifexp _ c t e => innerIds c ++ innerIds t ++ innerIds e
   | .display _ es => innerIdsList es
-  | .comp _ _ inner => allIdsList inner
+  | .comp _ _ first inner => innerIds first ++ allIdsList inner
   | .starred _ e => innerIds e
   | .coll _ _ es => innerIdsList es
   | .dict _ items => innerIdsItems items
